@@ -50,3 +50,45 @@ pub use crate::pattern::{Pattern, PatternError};
 pub use crate::pkgname::PkgName;
 pub use crate::pkgpath::{PkgPath, PkgPathError};
 pub use crate::scanindex::ScanIndex;
+
+/*
+ * Verification hooks, only built with --cfg pkgsrc_verif.
+ */
+#[cfg(pkgsrc_verif)]
+#[doc(hidden)]
+#[allow(missing_docs)]
+pub mod verif_hooks {
+    use crate::dewey::{dewey_cmp, DeweyOp, DeweyVersion};
+
+    fn op(s: &str) -> DeweyOp {
+        match s {
+            "le" => DeweyOp::LE,
+            "lt" => DeweyOp::LT,
+            "ge" => DeweyOp::GE,
+            _ => DeweyOp::GT,
+        }
+    }
+
+    /// DeweyVersion::new(s) as (components, PKGREVISION).
+    pub fn dewey_parts(s: &str) -> (Vec<i64>, i64) {
+        let dv = DeweyVersion::new(s);
+        let (v, r) = dv.verif_parts();
+        (v.to_vec(), r)
+    }
+
+    /// dewey_cmp() on raw (components, PKGREVISION) pairs.
+    pub fn dewey_cmp_parts(
+        l: (&[i64], i64),
+        o: &str,
+        r: (&[i64], i64),
+    ) -> bool {
+        let l = DeweyVersion::verif_from_parts(l.0.to_vec(), l.1);
+        let r = DeweyVersion::verif_from_parts(r.0.to_vec(), r.1);
+        dewey_cmp(&l, &op(o), &r)
+    }
+
+    /// dewey_cmp() on two version strings.
+    pub fn dewey_cmp_str(l: &str, o: &str, r: &str) -> bool {
+        dewey_cmp(&DeweyVersion::new(l), &op(o), &DeweyVersion::new(r))
+    }
+}
